@@ -167,9 +167,282 @@ pub fn pat(r: &mut Rng, f: Fmt) -> u64 {
     p & mask
 }
 
+// ---------------------------------------------------------------------------- constructed rounding traps
+
+/// inverse of an odd number modulo 2^64 (Newton iteration)
+fn inv_pow2(a: u64) -> u64 {
+    let mut x = a; // correct to 3 bits
+    for _ in 0..6 {
+        x = x.wrapping_mul(2u64.wrapping_sub(a.wrapping_mul(x)));
+    }
+    x
+}
+
+fn bitlen(x: u64) -> u32 {
+    64 - x.leading_zeros()
+}
+
+/// the pattern of (+-) sig * 2^(scale - (bitlen(sig) - 1)) if that value is exactly representable
+fn exact_pattern(f: Fmt, neg: bool, scale: i32, sig: u64) -> Option<u64> {
+    if sig == 0 {
+        return None;
+    }
+    let num = fast::Num { neg, scale, m: (sig as u128) << (128 - bitlen(sig)), sticky: false };
+    let p = fast::encode(f, fast::FV::Num(num));
+    match fast::decode(f, p) {
+        fast::FV::Num(d) if d.scale == num.scale && d.m == num.m && d.neg == num.neg => Some(p as u64),
+        _ => None,
+    }
+}
+
+/// small odd residue
+fn small_odd(r: &mut Rng) -> u64 {
+    match r.below(6) {
+        0..=2 => 1,
+        3 => 3,
+        4 => (1 << r.range(2, 4)) - 1,
+        _ => (r.below(16) | 1),
+    }
+}
+
+/// widest significand (hidden bit included) a value of this scale can carry in format f (0: none)
+fn avail_width(f: Fmt, scale: i32) -> u32 {
+    let k = scale.div_euclid(1 << f.es);
+    let rl = if k >= 0 { k + 2 } else { -k + 1 };
+    let fb = f.n as i32 - 1 - rl - f.es as i32;
+    if fb < 0 {
+        0
+    } else {
+        fb as u32 + 1
+    }
+}
+
+/// a scale for a constructed operand: mostly short regimes (most fraction bits), sometimes long
+fn trap_scale(r: &mut Rng, f: Fmt) -> i32 {
+    let e = r.below(1 << f.es) as i32;
+    let kmax = f.n as i64 - 4;
+    let k = match r.below(4) {
+        0..=1 => r.range(-1, 0),
+        2 => r.range(-4, 3),
+        _ => r.range(-kmax, kmax),
+    } as i32;
+    k * (1 << f.es) + e
+}
+
+/// A fused triple (a, b, c) built so that the exact value of c +- a*b is a rounding boundary (a
+/// posit value or a midpoint) plus or minus a *tiny* residue. Two constructions, both with a
+/// modular inverse:
+///  1. zero-run product: A*B = H*2^m +- L with a long run of zeros (or ones) between H and the
+///     small L; c = C*2^tb is aligned at or just above the bottom of H, with C at the carry edge,
+///     at the cancellation edge, few-bit, or random;
+///  2. addend tail: c reaches j bits below the last bit of the product and carries the tiny
+///     residue in those bits, while A*B is solved so that product + upper part of c is exactly a
+///     tie / a posit value / one below at the precision of the result.
+/// Uniform or magnitude-structured sampling meets such triples with probability 2^-35 ... 2^-60;
+/// defects in the handling of the very last bits of the working significand (a sticky bit
+/// dropped by a carry shift, a missing borrow, a sticky mask one bit short) only show there.
+pub fn fused_trap(r: &mut Rng, f: Fmt) -> Option<[u64; 3]> {
+    if f.n > 32 || f.n < 10 {
+        return None;
+    }
+    let full = f.n - 2 - f.es; // widest significand of the format
+    for _ in 0..128 {
+        // the addend first: its scale (mostly a short regime) and width
+        let sc = trap_scale(r, f);
+        let wc_max = avail_width(f, sc);
+        if wc_max < 3 {
+            continue;
+        }
+        let wc = if r.chance(2, 3) { wc_max - r.below(2).min(wc_max as u64 - 3) as u32 } else { r.range(3, wc_max as i64) as u32 };
+        // how far the top bit of c lies above the top bit of the product
+        let g: i32 = if r.chance(1, 2) { r.range(-2, 16) } else { r.range(-(wc as i64) - 30, 60) } as i32;
+        // split the scale of the product between a and b
+        let s = sc - g;
+        let d = match r.below(4) {
+            0 => 0,
+            1 => r.range(-2, 2),
+            2 => r.range(-8, 8),
+            _ => r.range(-40, 40),
+        } as i32;
+        let sa = s.div_euclid(2) + d;
+        let sb = s - sa;
+        let (wa_max, wb_max) = (avail_width(f, sa), avail_width(f, sb));
+        if wa_max < 3 || wb_max < 3 {
+            continue;
+        }
+        let wa = wa_max - r.below(3).min(wa_max as u64 - 3) as u32;
+        let a_sig = (1u64 << (wa - 1)) | (r.next() & ((1u64 << (wa - 1)) - 1)) | 1;
+        let inv = inv_pow2(a_sig);
+        let wb_t = wb_max - r.below(2).min(wb_max as u64 - 3) as u32;
+        // position of c's last bit in units of the product's last bit
+        let tb: i32 = g - wc as i32 + wa as i32 + wb_t as i32 - 1;
+        let (b_sig, c_sig): (u64, u64);
+        if tb >= 2 {
+            // ---- construction 1: zero-run product, c aligned near the bottom of H
+            let top_m = (wa + wb_t) as i64 - 2;
+            let m = match r.below(8) {
+                0..=1 => tb as i64 - 1,
+                2..=3 => tb as i64,
+                4 => tb as i64 + 1,
+                5 => tb as i64 + 2,
+                _ => r.range((tb as i64 - 1).min(top_m), top_m),
+            };
+            if m < 3 || m > top_m {
+                continue;
+            }
+            let m = m as u32;
+            let l = small_odd(r);
+            if bitlen(l) + 2 > m || bitlen(l) as i32 >= tb {
+                continue;
+            }
+            let minus = r.chance(1, 3);
+            let mm = (1u64 << m) - 1;
+            let resid = if minus { (1u64 << m).wrapping_sub(l) & mm } else { l };
+            let b0 = inv.wrapping_mul(resid) & mm;
+            b_sig = if m >= wb_t {
+                // the whole of B is determined: it has to come out with exactly wb_t bits
+                if bitlen(b0) != wb_t {
+                    continue;
+                }
+                b0
+            } else {
+                let t = (1u64 << (wb_t - m - 1)) | (r.next() & ((1u64 << (wb_t - m - 1)) - 1));
+                b0 | (t << m)
+            };
+            let p = (a_sig as u128) * (b_sig as u128);
+            let h = ((p >> m) as u64) + if minus { 1 } else { 0 };
+            let tbu = tb as u32;
+            let hq: u128 = if tbu <= m { (h as u128) << (m - tbu) } else { (h as u128) >> (tbu - m) };
+            let top = 1u128 << wc;
+            let c: u128 = match r.below(6) {
+                0..=1 => (1u128 << (wc - 1)) | (r.next() as u128 & ((1u128 << (wc - 1)) - 1)),
+                2..=3 => {
+                    if hq >= top {
+                        continue;
+                    }
+                    (top - hq).wrapping_add(r.range(-2, 6) as i128 as u128)
+                }
+                4 => hq.wrapping_add(r.range(-3, 3) as i128 as u128),
+                _ => (1u128 << (wc - 1)).wrapping_add(r.below(4) as u128),
+            };
+            if c < (1u128 << (wc - 1)) || c >= top {
+                continue;
+            }
+            c_sig = c as u64;
+        } else if tb < 0 && ((-tb) as u32) < wc {
+            // ---- construction 2: c reaches j bits below the product and carries the residue there
+            let j = (-tb) as u32;
+            let z = r.below(2) as i32;
+            let wr = avail_width(f, sa + sb + 1 - z + if g > 0 { g } else { 0 });
+            if wr == 0 {
+                continue;
+            }
+            let t = (wa + wb_t) as i32 - z - wr as i32 - 1 + if g > 0 { g } else { 0 }; // assumed tie bit
+            if t < 1 || (t + 1) as u32 > wb_t {
+                continue;
+            }
+            let t = t as u32;
+            let clow: u64 = match r.below(4) {
+                0..=1 => 1,
+                2 => (1u64 << j) - 1,
+                _ => (r.next() & ((1u64 << j) - 1)) | 1,
+            };
+            let chigh = (1u64 << (wc - j - 1)) | (r.next() & ((1u64 << (wc - j - 1)) - 1));
+            let want: u64 = match r.below(5) {
+                0..=1 => 1u64 << t,         // exact tie, then the tail
+                2 => (1u64 << t) - 1,       // one below the tie
+                3 => 0,                     // exact posit value, then the tail
+                _ => (1u64 << (t + 1)) - 1, // one below a posit value
+            };
+            let mm = (1u64 << (t + 1)) - 1;
+            let resid = if r.chance(1, 2) { want.wrapping_sub(chigh) } else { want.wrapping_add(chigh) } & mm;
+            if resid == 0 {
+                continue;
+            }
+            let b0 = inv.wrapping_mul(resid) & mm;
+            let fill = wb_t - (t + 1);
+            b_sig = if fill == 0 {
+                if bitlen(b0) != wb_t {
+                    continue;
+                }
+                b0
+            } else {
+                let tbits = (1u64 << (fill - 1)) | (r.next() & ((1u64 << (fill - 1)) - 1));
+                b0 | (tbits << (t + 1))
+            };
+            c_sig = (chigh << j) | clow;
+        } else {
+            continue;
+        }
+        debug_assert!(bitlen(b_sig) == wb_t && bitlen(c_sig) == wc && wc <= full);
+        let a = exact_pattern(f, r.chance(1, 2), sa, a_sig);
+        let b = exact_pattern(f, r.chance(1, 2), sb, b_sig);
+        let c = exact_pattern(f, r.chance(1, 2), sc, c_sig);
+        if let (Some(a), Some(b), Some(c)) = (a, b, c) {
+            return Some(if r.chance(1, 2) { [a, b, c] } else { [b, a, c] });
+        }
+    }
+    None
+}
+
+/// A multiplication partner for `a` built with a modular inverse so that the exact product is a
+/// rounding midpoint (for a short result regime) plus or minus a tiny residue.
+fn product_trap_partner(r: &mut Rng, f: Fmt, a: u64) -> Option<u64> {
+    if f.n > 32 || f.n < 10 {
+        return None;
+    }
+    let es = f.es as i32;
+    let maxw = f.n as i32 - 2 - es;
+    if maxw < 6 {
+        return None;
+    }
+    let mw = maxw as u32;
+    let fast::FV::Num(x) = fast::decode(f, a as u32) else { return None };
+    let sig = (x.m >> 64) as u64; // at most 32 significant bits
+    let ao = sig >> sig.trailing_zeros();
+    let wao = bitlen(ao);
+    if wao < 5 {
+        return None;
+    }
+    let z = r.below(2) as u32;
+    let t = wao - 1 - z; // assumed position of the tie bit in Ao * B
+    if t < 3 {
+        return None;
+    }
+    let l = small_odd(r);
+    if bitlen(l) >= t {
+        return None;
+    }
+    let modulus_bits = t + 1;
+    let mm = (1u64 << modulus_bits) - 1;
+    let resid = if r.chance(1, 2) { (1u64 << t) + l } else { (1u64 << t) - l };
+    let b0 = inv_pow2(ao).wrapping_mul(resid) & mm;
+    if modulus_bits > mw {
+        return None;
+    }
+    let fill = mw - modulus_bits;
+    let b_sig = if fill == 0 {
+        b0
+    } else {
+        let tbits = (1u64 << (fill - 1)) | (r.next() & ((1u64 << (fill - 1)) - 1));
+        b0 | (tbits << modulus_bits)
+    };
+    if b_sig < 3 {
+        return None;
+    }
+    let (lo, hi) = (-(1i32 << es), (1i32 << es) - 1);
+    let sb = r.range(lo as i64, hi as i64) as i32;
+    exact_pattern(f, r.chance(1, 2), sb, b_sig)
+}
+
 /// a partner for `a` that stresses alignment, cancellation and reciprocity
 pub fn partner(r: &mut Rng, f: Fmt, a: u64) -> u64 {
     let mask = f.mask();
+    if r.chance(1, 12) {
+        if let Some(b) = product_trap_partner(r, f, a) {
+            return b;
+        }
+    }
     match r.below(8) {
         0..=2 => pat(r, f),
         3 => {
@@ -461,6 +734,16 @@ pub fn tuple(r: &mut Rng, kinds: &[Kind], out: &mut [u64; 3]) {
     *out = [0; 3];
     if kinds.is_empty() {
         return;
+    }
+    if kinds.len() == 3 {
+        if let (Kind::Pat(f0), Kind::Pat(f1), Kind::Pat(f2)) = (kinds[0], kinds[1], kinds[2]) {
+            if f0 == f1 && f1 == f2 && r.chance(1, 4) {
+                if let Some(t) = fused_trap(r, f0) {
+                    *out = t;
+                    return;
+                }
+            }
+        }
     }
     out[0] = one(r, kinds[0]);
     if kinds.len() >= 2 {
